@@ -38,6 +38,7 @@ import ASV.Proofs.RegionExtractRegion
 import ASV.Proofs.RegionAnnotations
 import ASV.Proofs.RegionExtractMotif
 import ASV.Proofs.RegionOutputs
+import ASV.Proofs.RegionExtractKeptMulti
 namespace ASV.C12
 open ASV ASV.RegionExtract
 
@@ -131,17 +132,43 @@ theorem shift_same_bases_partial (rd : RegionData) (rec : BioRecord) (w : Writte
 /-- Nothing inside the region is left out: a feature of the full record that lies inside the region
     (`insideRegion`: all parts between the region's start and end; over the origin: all before it, all after it,
     or — for a feature that itself runs over the origin — each part on its side) is written.
-    Remaining hypothesis: a feature running over the origin inside a region over the origin has one part on each
-    side of the origin (`twoPart`; with more exons the loop's "does it still cross the origin" test depends on the
-    exon order, left to the executable `insideKept`). -/
+    For a feature running over the origin inside a region over the origin: it has one part on each side of the
+    origin (`twoPart`, also when it goes all the way round), or **any number of exons on each side** in transcription
+    order (`ringOrdered`: forward strand — those before the origin ascending, then those after it ascending; reverse
+    strand — those after the origin descending, then those before it descending; none empty, none reaching into
+    another) and is not as long as the record.  The order is needed, not a gap of the proof: the loop keeps an
+    origin-spanning feature only if, moved into file coordinates, it no longer looks origin-spanning
+    (`location_bridges_origin`), and exons in another order still do — such a feature is not a gene lying over the
+    origin but a scrambled location, and the code drops it. -/
 theorem inside_kept_partial (rd : RegionData) (rec : BioRecord) (w : Written)
     (h : writeToGenbank rd rec = .ok w)
     (hreg : rd.crossesOrigin = true → 0 < rd.end ∧ rd.start < rec.length)
     (f : BioFeature) (hf : f ∈ rec.features) (hne : f.loc.parts ≠ [])
     (hin : insideRegion rec.length rd f.loc = true)
-    (htwo : rd.crossesOrigin = true → bridgesOrigin f.loc = true → twoPart rec.length f.loc = true) :
+    (hord : rd.crossesOrigin = true → bridgesOrigin f.loc = true →
+      twoPart rec.length f.loc = true ∨ (ringOrdered rec.length rd f.loc = true ∧ f.loc.len ≠ rec.length)) :
     ∃ g ∈ w.extract.features, g.tag = f.tag :=
-  written_contains_inside rd rec w h hreg f hf hne hin htwo
+  written_contains_inside_multi rd rec w h hreg f hf hne hin hord
+
+/-- Not vacuous: genes with two exons on each side of the origin, one per strand, inside the region `[16:20]+[0:6]`
+    of a record of 20 bases: in transcription order, not `twoPart`, and written as one run each (abutting pieces
+    joined where `offset_location` joins them: in ascending order) -/
+def exMultiRd : RegionData := { start := 16, «end» := 6, cands := [], subs := [] }
+def exMultiRec : BioRecord :=
+  { seq := "ACGTACGTACGTACGTACGT".toList,
+    features := [
+      ⟨0, "CDS", .compound [⟨16, 17, .fwd⟩, ⟨18, 20, .fwd⟩, ⟨0, 2, .fwd⟩, ⟨3, 5, .fwd⟩], {}⟩,
+      ⟨1, "CDS", .compound [⟨4, 6, .rev⟩, ⟨0, 1, .rev⟩, ⟨19, 20, .rev⟩, ⟨16, 18, .rev⟩], {}⟩] }
+
+example : exMultiRec.features.all (fun f => bridgesOrigin f.loc && ringOrdered 20 exMultiRd f.loc &&
+    !twoPart 20 f.loc && insideRegion 20 exMultiRd f.loc) = true := by decide
+example : (writeToGenbank exMultiRd exMultiRec).toOption.map (fun w => w.extract.features.map fun f => (f.tag, f.loc)) =
+    some [(0, .compound [⟨0, 1, .fwd⟩, ⟨2, 6, .fwd⟩, ⟨7, 9, .fwd⟩]),
+          (1, .compound [⟨8, 10, .rev⟩, ⟨4, 5, .rev⟩, ⟨3, 4, .rev⟩, ⟨0, 2, .rev⟩])] := by decide
+/-- … and the same exons in another order are still origin-spanning after the move, so the code leaves the feature out -/
+example : (writeToGenbank exMultiRd
+      { exMultiRec with features := [⟨0, "CDS", .compound [⟨18, 20, .fwd⟩, ⟨16, 17, .fwd⟩, ⟨0, 2, .fwd⟩], {}⟩] }).toOption.map
+      (fun w => w.extract.features.length) = some 0 := by decide
 
 /-- Renumbering is consistent: there is one renumbering per kind of area (protoclusters, candidate
     clusters, subregions) such that every written feature's references — the region's candidate and
